@@ -177,6 +177,7 @@ class Cfg:
         self.enzyme_density = c.default_enzyme_density
 
     def precision(self, unit: str) -> int:
+        unit = unit.replace('\u00b5', 'u')      # (the two spellings of micro are one unit: fix 'the display precision of a unit does not depend on how micro is spelt')
         if FOLLOW_LIVE_PRECISIONS:
             # the repository's own tests change display precisions on the live configuration object while they run
             live = self.raw.precisions
@@ -252,7 +253,7 @@ def concentration(contents, solute, num: str, den: str) -> float:
 # quantity / concentration grammar (C14)
 
 _NUM = r'[+-]?(?:\d+(?:\.\d*)?|\.\d+)(?:[eE][+-]?\d+)?'
-_NUM_RE = re.compile('^' + _NUM + '$')
+_NUM_RE = re.compile('^' + _NUM + '$', re.ASCII)      # (ASCII digits: float() also reads other scripts' digits and '1_0')
 
 
 def parse_number(tok: str) -> float:
